@@ -346,7 +346,67 @@ def work_hist(task):
 
 
 # ----------------------------------------------------------------------------- (C), (D), (E)
+def stale_after_reset(res):
+    """a session of independent Program objects (measure mode 0 / use its value on mode 1 / an unrelated gate) in every order
+    in which the user comes after the measurement, then reset(), then the user alone: the value measured before the reset
+    must be gone - the engine must do what a fresh engine does with that program (refuse it)"""
+
+    def mk(kind):
+        P = sf.Program(2)
+        with P.context as q:
+            if kind == "M":
+                ops.Squeezed(0.3) | q[0]
+                ops.MeasureHomodyne(0.0, select=SEL) | q[0]
+            elif kind == "U":
+                ops.Xgate(q[0].par) | q[1]
+            else:
+                ops.Rgate(0.3) | q[1]
+        return P
+
+    def outcome(fn):
+        try:
+            with warnings.catch_warnings():
+                warnings.simplefilter("ignore")
+                r = fn()
+            return ("state", np.round(np.array(r.state.means()), 8).tolist())
+        except Exception as e:  # noqa: BLE001
+            return ("raises", type(e).__name__)
+
+    for backend in ("gaussian", "fock"):
+        opts = {"cutoff_dim": 6} if backend == "fock" else {}
+        for order in [("M", "U"), ("M", "U", "O"), ("M", "O", "U"), ("M", "U", "O", "O"), ("M", "U", "U", "O")]:
+            for how in ("one-by-one", "list"):
+                res.n += 1
+                res.nt += 1
+                case = {"stale_after_reset": True, "backend": backend, "order": list(order), "how": how}
+                progs = [mk(k) for k in order]
+                eng = sf.Engine(backend, backend_options=opts)
+                try:
+                    with warnings.catch_warnings():
+                        warnings.simplefilter("ignore")
+                        if how == "list":
+                            eng.run(progs)
+                        else:
+                            for P in progs:
+                                eng.run(P)
+                        eng.reset()
+                except Exception as e:  # noqa: BLE001
+                    res.stats[f"stale_after_reset:session-raises:{type(e).__name__}"] += 1
+                    continue
+                for idx in [i for i, k in enumerate(order) if k == "U"]:
+                    got = outcome(lambda: eng.run(progs[idx]))
+                    want = outcome(lambda: sf.Engine(backend, backend_options=opts).run(mk("U")))
+                    if got != want:
+                        res.violation(f"C10|measured|stale-value-after-reset|{backend}", f"session {list(order)} ({how}) of independent programs (M measures mode 0 = {SEL}, U applies Xgate(q0.par) to mode 1, O is unrelated), reset(), then program {idx} (U) alone: {got}; a fresh engine: {want}", dict(case, idx=idx))
+                    try:
+                        eng.reset()
+                    except Exception:  # noqa: BLE001
+                        break
+    return res
+
+
 def misc(res):
+    stale_after_reset(res)
     # unbound free parameter, unknown name
     for what in ("unbound", "unknown"):
         res.n += 1
@@ -490,8 +550,61 @@ def multi_mode_values(res):
     return res
 
 
+# ----------------------------------------------------------------------------- (F) symbolic gates with neighbours on their wire
+NB_FAMS = {"Rgate": ops.Rgate, "Zgate": ops.Zgate, "Xgate": ops.Xgate, "Sgate": ops.Sgate, "Pgate": ops.Pgate}
+
+
+def neighbours(res, quick=True):
+    """every sequence of 2-3 gates on one wire over {G(measured), G(0.4), G(free a), H(measured)} (G a one-parameter family, H
+    another one), executed with and without the optimiser: the optimiser may merge G(m) with its neighbours only if the
+    result is what the numeric twin computes"""
+    binding = BINDINGS[0]
+    for fam, G in NB_FAMS.items():
+        other = ops.Zgate if fam != "Zgate" else ops.Rgate
+        letters = [("G", "m"), ("G", "c"), ("G", "a"), ("H", "m")]
+        for L in (2, 3):
+            for seq in itertools.product(letters, repeat=L):
+                if not any(k == "m" for _, k in seq):
+                    continue
+
+                def build(symbolic):
+                    prog = sf.Program(3)
+                    with warnings.catch_warnings():
+                        warnings.simplefilter("ignore")
+                        with prog.context as q:
+                            ops.Squeezed(0.3, 0.1) | q[0]
+                            ops.Coherent(0.2, 0.3) | q[1]
+                            ops.BSgate(0.4, 0.2) | (q[0], q[1])
+                            ops.MeasureHomodyne(0.0, select=SEL) | q[0]
+                            for g, k in seq:
+                                val = {"m": q[0].par if symbolic else SEL, "c": 0.4, "a": prog.params("a") if symbolic else binding["a"]}[k]
+                                (G if g == "G" else other)(val) | q[1]
+                    return prog
+
+                tag = [f"{fam if g == 'G' else other.__name__}({k})" for g, k in seq]
+                case = {"part": "neighbours", "family": fam, "seq": [list(x) for x in seq]}
+                try:
+                    ref = run_route(build(False), "default", binding, False)
+                except Exception as e:  # noqa: BLE001
+                    res.stats["neighbours:numeric-twin-raises"] += 1
+                    continue
+                for route in ("default", "optimize", "compiled"):
+                    res.n += 1
+                    res.nt += 1
+                    try:
+                        got = run_route(build(True), route, binding, True)
+                    except Exception as e:  # noqa: BLE001
+                        res.violation(f"C10|neighbours|raises|{route}|{type(e).__name__}", f"{tag} on one wire (m = measured value of mode 0, a free, c = 0.4), route {route}: raised {type(e).__name__}: {str(e)[:120]} where the numeric twin runs", dict(case, route=route))
+                        continue
+                    d = max(float(np.max(np.abs(got[0] - ref[0]))), float(np.max(np.abs(got[1] - ref[1]))))
+                    if d > 1e-8:
+                        res.violation(f"C10|neighbours|state|{route}|{fam}", f"{tag} on one wire (m = measured value {SEL} of mode 0, a = {binding['a']}, c = 0.4), route {route}: state differs from the numeric twin's by {d:.3g}", dict(case, route=route))
+    return res
+
+
 def run(ctx):
     quick = ctx.tier == "quick"
+    ctx.add(neighbours(Res()))
     ex = expressions(2 if quick else 3)
     tasks = []
     for si in range(len(SLOTS)):
@@ -521,6 +634,9 @@ def run(ctx):
 
 
 def replay(case):
+    if case.get("part") == "neighbours":
+        r = neighbours(Res())
+        return [(s, w) for s, w, c in r.viol if c.get("family") == case["family"] and c.get("seq") == case["seq"] and c.get("route") == case["route"]]
     res = Res()
     if "slot" in case:
         e = _tup(case["expr"])
